@@ -798,9 +798,24 @@ func interpretLess(fn *ssa.Function, ord map[string]int, keysSeen map[string]boo
 		key    *absKey
 	}
 	env := map[ssa.Value]val{}
+	// the two index parameters (the int-typed ones, in order)
+	var idxParams []*ssa.Parameter
+	for _, pp := range fn.Params {
+		if bt, ok := pp.Type().Underlying().(*types.Basic); ok && bt.Kind() == types.Int {
+			idxParams = append(idxParams, pp)
+		}
+	}
+	paramPos := func(p *ssa.Parameter) int {
+		for i, pp := range idxParams {
+			if pp == p {
+				return i
+			}
+		}
+		return -1
+	}
 	var elemOf func(v ssa.Value) int
 	elemOf = func(v ssa.Value) int {
-		// pointer/value of the slice element indexed by parameter 0 or 1
+		// pointer/value of the slice element indexed by the first or the second index parameter
 		switch x := v.(type) {
 		case *ssa.UnOp:
 			if x.Op == token.MUL {
@@ -808,19 +823,11 @@ func interpretLess(fn *ssa.Function, ord map[string]int, keysSeen map[string]boo
 			}
 		case *ssa.IndexAddr:
 			if p, ok := x.Index.(*ssa.Parameter); ok {
-				for i, pp := range fn.Params {
-					if pp == p {
-						return i
-					}
-				}
+				return paramPos(p)
 			}
 		case *ssa.Index:
 			if p, ok := x.Index.(*ssa.Parameter); ok {
-				for i, pp := range fn.Params {
-					if pp == p {
-						return i
-					}
-				}
+				return paramPos(p)
 			}
 		}
 		return -1
